@@ -9,8 +9,10 @@ From CL Require Import Base.Sx Base.Res Base.Str Model.Entry Model.Parse Model.P
                        Proofs.C02BlocksPo
                        Model.AddRemove Proofs.AddRemoveProofs Proofs.AddRemoveSpec
                        Model.Channels Proofs.ChannelsProofs Proofs.ChannelsSpec
-                       Proofs.MergeShapeKeys Proofs.MergeShape Proofs.SerializerProofs.
-From CL Require Proofs.C02Blocks Proofs.PropsShape Proofs.MergeReparse15 Proofs.MergeEntriesShape.
+                       Proofs.MergeShapeKeys Proofs.MergeShape Model.Serializer Proofs.SerializerProofs
+                       Proofs.SerializerSpec Proofs.SerializerFinal Proofs.ReparsePartial.
+From CL Require Proofs.C02Blocks Proofs.PropsShape Proofs.MergeReparse15 Proofs.MergeEntriesShape
+                Proofs.SerializeReparse16 Proofs.PropsWrap.
 Import ListNotations.
 Local Open Scope nat_scope.
 Local Notation mem := C02Roundtrip.mem.
@@ -289,6 +291,100 @@ Proof.
   assert (Hk : map (fun e => ckind_of (e_kind e)) (pentries_of bs) = map c_kind out).
   { exact (eq_trans (pents_kinds bs 0 []) (strip_kinds _ _ Hst)). }
   exists bs. unfold serialize_legacy. repeat split; try assumption.
+  - rewrite <- B4. apply blocks_po; assumption.
+  - assert (Hnj : Forall (fun k => k <> CJunk) (map c_kind out)).
+    { apply Forall_forall. intros k Hk'. apply in_map_iff in Hk'. destruct Hk' as (e & <- & He).
+      rewrite Forall_forall in Hd. destruct (Hd e He) as [? ? ? ? ? ? ? _ _ Q|? ? _ _ Q|? ? Q _ _ _];
+        apply strip_fields in Q; destruct Q as [Q _]; cbn in Q; rewrite Q; discriminate. }
+    rewrite <- Hk in Hnj. apply Forall_forall. intros e He Hj.
+    rewrite Forall_forall in Hnj. apply (Hnj (ckind_of (e_kind e))); [apply in_map_iff; exists e; auto|].
+    rewrite Hj. reflexivity.
+Qed.
+
+(* ---- C16 ---------------------------------------------------------------------------------------------- *)
+(* a raw value of a PO message is its whole msgstr clause: "msgstr" and a non-empty list of
+   quoted items *)
+Definition legal_po_raw (raw : str) : Prop :=
+  exists strl, raw = s_msgstr ++ items_text strl /\ legal_items strl = true.
+
+Lemma pcentries_plain bs : Forall legal_pblock bs -> Forall MergeEntriesShape.plain (pcentries_of bs).
+Proof.
+  intros Hl. apply Forall_forall. intros e He. unfold MergeEntriesShape.plain.
+  destruct (pcents_In bs Hl [] e eq_refl He) as [(w0 & -> & _)|[(cs & _ & ->)|(cs & iw & c & i & w2 & s & _ & ->)]]; cbn; auto 8.
+Qed.
+
+Lemma text_pre_pent e cs iw ctxt idl w2 strl :
+  strip e = strip (pent_centry cs iw ctxt idl w2 strl) ->
+  PropsWrap.text_pre e = ctext cs ++ iw ++ ctxt_text ctxt ++ s_msgid ++ items_text idl ++ w2.
+Proof.
+  intros H. destruct (strip_fields _ _ H) as (_ & _ & K3 & K4). cbn [c_text c_val pent_centry] in K3, K4.
+  unfold PropsWrap.text_pre. rewrite K3, K4. unfold pent_text, msg_text.
+  set (P0 := ctext cs ++ iw ++ ctxt_text ctxt ++ s_msgid ++ items_text idl ++ w2).
+  replace (ctext cs ++ iw ++ ctxt_text ctxt ++ s_msgid ++ items_text idl ++ w2 ++ s_msgstr ++ items_text strl)
+    with (P0 ++ (s_msgstr ++ items_text strl)) by (unfold P0; rewrite <- !app_assoc; reflexivity).
+  rewrite app_length.
+  replace (length P0 + length (s_msgstr ++ items_text strl) - length (s_msgstr ++ items_text strl))
+    with (length P0 + 0) by lia.
+  rewrite firstn_app_2. cbn [firstn]. rewrite app_nil_r. reflexivity.
+Qed.
+
+Theorem serialize_reparse_po rbs obs wrap nd name txt :
+  pversion_ok rbs -> pversion_ok obs -> NoDup (map fst nd) -> SerializeReparse16.props_wrap wrap ->
+  (forall k raw, In (k, Some raw) nd -> legal_po_raw raw) ->
+  let R := number 0 (pcentries_of rbs) in
+  let L := number (length (pcentries_of rbs)) (pcentries_of obs) in
+  serialize wrap name R L nd = Ok txt ->
+  exists out bs,
+    serialize_entries wrap R L nd = Ok out /\ txt = concat (map c_text out) /\
+    map fst (PropsShape.krecs out) = filter (has_value L nd) (refkeys R) /\
+    Forall legal_pblock bs /\ padjacent_ok bs /\ pfile_text bs = txt /\
+    map strip (pcentries_of bs) = map strip out /\
+    walk_po txt = Ok (pentries_of bs) /\
+    map (fun e => ckind_of (e_kind e)) (pentries_of bs) = map c_kind out /\
+    Forall (fun e => e_kind e <> KJunk) (pentries_of bs).
+Proof.
+  intros Hr Ho Hnd Hw Hraw R L H.
+  pose proof (SerializeReparse16.props_wrap_ok wrap Hw) as Hwo.
+  destruct (serialize_inv wrap name R L nd txt H) as (out & Hout & ->).
+  pose proof (pcentries_dec rbs Hr) as DR. pose proof (pcentries_dec obs Ho) as DL.
+  destruct Hr as (Lr & Cr & Ur & Nr & Wr). destruct Ho as (Lo & Co & Uo & No & Wo).
+  pose proof (pcentries_plain rbs Lr) as PlR. pose proof (pcentries_plain obs Lo) as PlL.
+  destruct (MergeEntriesShape.serialize_entries_shape m _ _ PlR PlL Ur Uo Nr No wrap nd Hnd Hwo out Hout) as (S1 & S2).
+  assert (Hd : Forall (pdec m) out).
+  { apply Forall_forall. intros e He.
+    destruct (serialize_sources wrap R L nd out Hout e He) as [_ [(Hin & _ & _)|[(Hin & _ & _)|(r & raw & Hr1 & Hr2 & Hr3 & Hr4)]]].
+    - destruct (SerializeReparse16.number_In_strip _ _ _ Hin) as (e0 & H0 & Hs).
+      rewrite Forall_forall in DR. eapply pdec_strip; [symmetry; exact Hs|apply DR; exact H0].
+    - destruct (SerializeReparse16.number_In_strip _ _ _ Hin) as (e0 & H0 & Hs).
+      rewrite Forall_forall in DL. eapply pdec_strip; [symmetry; exact Hs|apply DL; exact H0].
+    - destruct (SerializeReparse16.number_In_strip _ _ _ Hr1) as (r0 & Hr0 & Hs).
+      destruct (pcents_In rbs Lr [] r0 eq_refl Hr0) as [(w0 & E & _)|[(cs & _ & E)|(cs & iw & c & i & w2 & s & Hb & E)]].
+      + exfalso. unfold is_entity in Hr2. rewrite (SerializeReparse16.strip_kind_eq _ _ Hs), E in Hr2. discriminate.
+      + exfalso. unfold is_entity in Hr2. rewrite (SerializeReparse16.strip_kind_eq _ _ Hs), E in Hr2. discriminate.
+      + subst r0. rewrite Forall_forall in Lr, Cr. pose proof (Lr _ Hb) as Lb. pose proof (Cr _ Hb) as Cb.
+        destruct (Hraw _ _ Hr3) as (strl' & -> & Ls).
+        rewrite (Hw r _ e Hr4). destruct (strip_fields _ _ Hs) as (_ & K2 & _ & _). cbn in K2.
+        apply (pdec_ent m _ cs iw c i w2 strl'); [|exact Cb|].
+        * unfold legal_pblock in Lb. cbn [legal_pblockb] in Lb |- *.
+          apply andb_true_iff in Lb. destruct Lb as [Lb _]. rewrite Lb. exact Ls.
+        * unfold strip, literal, pent_centry. cbn [c_kind c_key c_text c_val]. rewrite K2.
+          rewrite (text_pre_pent r cs iw c i w2 s Hs). unfold pent_text, msg_text.
+          rewrite <- !app_assoc. reflexivity. }
+  destruct (pshape_blocks m out S1 S2 Hd) as (bs & B1 & B2 & B3 & B4 & B5 & _).
+  assert (Hadj : padjacent_ok bs).
+  { unfold padjacent_ok, padjacent_okb. rewrite B2, (plic_any bs B3 0). reflexivity. }
+  assert (Hst : map strip (pcentries_of bs) = map strip out).
+  { unfold pcentries_of. rewrite (B5 []). apply (join_nil m out Hd). }
+  assert (Hk : map (fun e => ckind_of (e_kind e)) (pentries_of bs) = map c_kind out).
+  { exact (eq_trans (pents_kinds bs 0 []) (strip_kinds _ _ Hst)). }
+  exists out, bs. unfold serialize_legacy. repeat split; try assumption.
+  - rewrite SerializeReparse16.krecs_cent, map_map. cbn [fst].
+    apply (entities_keys_thm wrap R L nd).
+    + apply (MergeEntriesShape.guR _ PlR Ur).
+    + apply (MergeEntriesShape.guL _ _ PlL Uo).
+    + exact Hnd.
+    + exact Hwo.
+    + exact Hout.
   - rewrite <- B4. apply blocks_po; assumption.
   - assert (Hnj : Forall (fun k => k <> CJunk) (map c_kind out)).
     { apply Forall_forall. intros k Hk'. apply in_map_iff in Hk'. destruct Hk' as (e & <- & He).
